@@ -161,7 +161,7 @@ PrepareViol(ev) ==
   \cup Chk("C08_NoRerunInFlow",
            (~ev.manual /\ id \notin env.trig.ids /\ ~h.retry /\ t.flows # {}) =>
               ~(t.flows \subseteq UNION {c[2] : c \in {x \in env.completedIn : x[1] = id}}))
-  \cup Chk("C28_EachMemberOnce", (id \in env.trig.ids /\ env.trig.dflt) => (env.trig.n[id] <= 0 \/ h.retry))
+  \cup Chk("C28_EachMemberOnce", (id \in DOMAIN env.trig.n /\ env.trig.dflt) => (env.trig.n[id] <= 0 \/ h.retry))
   \cup Chk("C28_InGroupOrder",
            \* (judged for triggers into the task's own flows, and for members without a live job at the time)
            (id \in env.trig.ids /\ ~ev.manual /\ env.trig.dflt /\ id \notin env.trig.live) =>
@@ -798,7 +798,10 @@ NextEnv(ev) ==
                                    \* (ids that name no instance of the graph match nothing)
                                    \* n = runs since the trigger; a member triggered again before it ran keeps the unused run
                                    [ids |-> real, done |-> {}, ran |-> {},
-                                    n |-> [i \in real |-> IF i \in DOMAIN @.n /\ @.n[i] <= 0 THEN @.n[i] - 1 ELSE 0],
+                                    \* (credits of members named by earlier trigger commands are kept)
+                                    n |-> [i \in real \cup DOMAIN @.n |->
+                                             IF i \in real THEN (IF i \in DOMAIN @.n /\ @.n[i] <= 0 THEN @.n[i] - 1 ELSE 0)
+                                             ELSE @.n[i]],
                                     dflt |-> ev.flow = {},
                                     live |-> {i \in real \cap DOMAIN pool : pool[i].st \in ActiveStatuses},
                                     \* outputs of earlier jobs of members that will be re-run
@@ -808,8 +811,9 @@ NextEnv(ev) ==
                      !.completedIn = IF ev.name \in {"remove_tasks", "force_trigger_tasks", "set"}
                                      THEN {c \in @ : c[1] \notin ev.ids} ELSE @]
     [] ev.e = "remove" /\ ev.reason = "completed" -> [env EXCEPT !.completedIn = @ \cup {<<ev.t.id, ev.t.flows>>}]
-    [] ev.e = "prepare" /\ ev.t.id \in env.trig.ids ->
-         [env EXCEPT !.trig.n = [@ EXCEPT ![ev.t.id] = @ + 1], !.trig.ran = @ \cup {ev.t.id}]
+    [] ev.e = "prepare" /\ ev.t.id \in DOMAIN env.trig.n ->
+         [env EXCEPT !.trig.n = [@ EXCEPT ![ev.t.id] = @ + 1],
+                     !.trig.ran = IF ev.t.id \in env.trig.ids THEN @ \cup {ev.t.id} ELSE @]
     [] ev.e = "msg" ->
          [env EXCEPT !.tainted = IF ev.flag = "received" /\ ev.inpool /\ ~ev.forced /\ ev.b.st = "waiting"
                                      /\ ev.b.etry = 0 /\ ev.b.stry = 0
